@@ -123,7 +123,7 @@ class Rewriter:
                         ms.append(('r' + mn, self.rw(mt, member=True)))
                 if pick is not None:
                     self.rules.append('vec-member->lbuf')
-                    return p.lbuf(ms[pick][1][1], r.choice([3, 5, 8]), r.choice(SIZE_TYPES), storage=r.choice(['arr', 'carr']),
+                    return p.lbuf(ms[pick][1][1], r.choice([3, 5, 8, 8, 40, 70]), r.choice(SIZE_TYPES), storage=r.choice(['arr', 'carr']),
                                   before=ms[:pick], after=ms[pick + 1:])
                 return p.struct(ms)
             if kind == 'lbuf':
@@ -284,6 +284,14 @@ def gen_pairs(seed, count, depth):
     sa2 = pool.struct([('data', ('arr', ('str', 'char'), 3))], name='FxArrSt2')
     lb2 = pool.lbuf(('str', 'char'), 3, 'std::size_t', storage='carr', name='FxLbSt2')
     fixed.append((sa1, lb1, -1)); fixed.append((lb1, sa1, -1)); fixed.append((sa2, lb2, -1))
+    # vector <-> logical buffer with capacities where the element count and the byte length (or the size
+    # member's range) fall into different integer classes, bare and inside a table entry
+    for k, (elem, cap, st) in enumerate([(P('std::uint32_t'), 70, 'std::uint8_t'), (P('std::uint64_t'), 40, 'std::uint8_t'), (P('std::uint16_t'), 100, 'std::int8_t'),
+                                         (P('float'), 40, 'std::uint8_t'), (('str', 'char'), 6, 'std::uint8_t'), (P('std::int16_t'), 300, 'std::uint16_t')]):
+        lb = pool.lbuf(elem, cap, st, storage=('arr' if k % 2 else 'carr'), before=[('id', u8)], name='FxBigLb%d' % k)
+        sv = pool.struct([('id', u8), ('vecdata', ('vec', elem))], name='FxBigVs%d' % k)
+        fixed.append((lb, sv, 1)); fixed.append((sv, lb, 1))
+        fixed.append((pool.table([(lb, 1, True), (u8, 2, True)], hash_=7, name='FxBigTa%d' % k), pool.table([(sv, 1, True), (u8, 2, True)], hash_=7, name='FxBigTb%d' % k), 1))
     for a, b, exp in fixed:
         pairs.append((a, b, exp, ['fixed']))
     while len(pairs) < count and tries < count * 50:
